@@ -230,3 +230,32 @@ def export_paths(text):
             prefixes.add(json.dumps(st[:n], sort_keys=True))
     maximal = [p for k, p in keys.items() if k not in prefixes]
     return cfg, maximal, len(paths)
+
+
+def tlc_strict_nc(mc_cfg, trace_path, wd, timeout=600):
+    """Strict pass for netcode traces exported from the MC_Netcode configuration `mc_cfg` (its constants are reused)."""
+    import re as _re
+    d = os.path.join(wd, "strict")
+    os.makedirs(d, exist_ok=True)
+    text = open(os.path.join(SPEC, mc_cfg)).read()
+    consts = text[text.index("CONSTANTS"):text.index("INVARIANT")]
+    # the strict pass compares with the code AS IT IS: the deviation switch of the known finding D18 is set to the code's behaviour
+    consts = consts.replace("TokenSingleUse = TRUE", "TokenSingleUse = FALSE")
+    cfgf = os.path.join(d, "strictnc-" + os.path.basename(trace_path) + ".cfg")
+    with open(cfgf, "w") as f:
+        f.write("SPECIFICATION SSpec\n" + consts + "INVARIANT SDone\nPOSTCONDITION Consumed\nCHECK_DEADLOCK FALSE\n")
+    meta = os.path.join(d, "meta-" + os.path.basename(trace_path))
+    out = os.path.join(d, "strictnc-" + os.path.basename(trace_path) + ".out")
+    cmd = ["timeout", str(timeout), "tlc", "-workers", "1", "-metadir", meta, "-cleanup", "-noGenerateSpecTE", "-config", cfgf, "TraceNetcodeStrict.tla"]
+    t0 = time.time()
+    rc, _ = run(cmd, cwd=SPEC, env={"TRACE": trace_path, "JAVA_TOOL_OPTIONS": JAVA_TRACE}, out=out)
+    dt = time.time() - t0
+    text = open(out, errors="replace").read()
+    shutil.rmtree(meta, ignore_errors=True)
+    drifts = [tla_json(m.group(1)) for m in _re.finditer(r'<<"DRIFT", "(.*)">>', text)]
+    m = _re.search(r'<<"STRICT", "(.*)">>', text)
+    stats = tla_json(m.group(1)) if m else {}
+    ok = "Model checking completed. No error has been found." in text
+    if not ok:
+        return {"ok": False, "error": "\n".join(text.splitlines()[-30:]), "drifts": drifts, "stats": stats, "wall": dt}
+    return {"ok": True, "drifts": drifts, "stats": stats, "wall": dt}
